@@ -81,6 +81,8 @@ type c50Server struct {
 	afterDone int      // request attempts made after the context was cancelled
 	final     bool     // a reply that ends the operation has been served
 	noTransportErr bool
+	allowLost bool // a signed request may be consumed by the server while its reply is lost (context expires)
+	lost      int  // number of such requests
 	problems  int // 1: malformed/badNonce; 2: also the pre-RFC badNonce URN
 
 	last        *http.Response // last reply served (nil after a transport failure)
@@ -154,6 +156,15 @@ func (s *c50Server) serve(method, nonce string) (*http.Response, error) {
 	}
 	s.lastWasPost = true
 	s.checkNonce(nonce)
+	if s.allowLost && verifrt.Choose(0, 1) == 1 {
+		// The request reached the CA (its nonce is consumed) but the reply never arrives: the
+		// caller's context expires while waiting and the transport reports the context error.
+		s.lost++
+		s.posts++
+		s.lastFailed = true
+		s.ctx.cancel()
+		return nil, context.Canceled
+	}
 	kind := 1
 	if !s.noTransportErr {
 		kind = verifrt.Choose(0, 1)
